@@ -249,6 +249,145 @@ macro_rules! c15_for {
                 kani::cover!(code != Codes::Unary, "c15.best reachable");
             }
 
+            // ---- the shared wrapper under interference (rely/guarantee on the lock) ----
+            //
+            // `CodesStatsWrapper` protects its statistics with a `std::sync::Mutex`. Mutual
+            // exclusion of the mutex is trusted; what is proved here, on the real wrapper code, is
+            // the part of thread safety that is the wrapper's own job: whatever other threads do to
+            // the protected value while the lock is NOT held, each critical section of a
+            // read/write through the wrapper either leaves the value as it found it or applies
+            // exactly `update(value)` to it, and exactly one section applies the update. Every
+            // interleaving of such operations is then equivalent to a sequential order of
+            // `update` calls (c15.update gives the totals of that order).
+            //
+            // `Mutex::lock` is replaced by `lock_stub`: it (1) records the value the previous
+            // critical section left behind, (2) overwrites the protected value with an arbitrary
+            // one (the interference of other threads), records it as the value found at
+            // acquisition, and (3) acquires the real lock with `try_lock` (a lock while the guard
+            // is still alive would be a deadlock and is reported).
+            pub const MAXSEC: usize = 3;
+            pub static mut SECTIONS: usize = 0;
+            pub static mut ACQ: [Option<St>; MAXSEC] = [None; MAXSEC];
+            pub static mut LEFT: [Option<St>; MAXSEC] = [None; MAXSEC];
+            pub static mut DEADLOCK: bool = false;
+
+            pub fn same(a: &St, b: &St) -> bool {
+                let mut ok = a.total == b.total;
+                let mut j = 0;
+                while j < NF {
+                    ok = ok && field(a, j) == field(b, j);
+                    j += 1;
+                }
+                ok
+            }
+
+            #[allow(static_mut_refs)]
+            pub fn lock_stub<T: ?Sized>(m: &std::sync::Mutex<T>) -> std::sync::LockResult<std::sync::MutexGuard<'_, T>> {
+                unsafe {
+                    // in these harnesses the only mutex ever locked protects the statistics
+                    let ms: &std::sync::Mutex<St> = &*(m as *const std::sync::Mutex<T> as *const () as *const std::sync::Mutex<St>);
+                    match ms.try_lock() {
+                        Ok(mut g) => {
+                            let k = SECTIONS;
+                            if k < MAXSEC {
+                                if k > 0 {
+                                    LEFT[k - 1] = Some(*g);
+                                }
+                                let h = any_stats();
+                                kani::assume(small(&h, 1 << 40));
+                                *g = h;
+                                ACQ[k] = Some(h);
+                            }
+                            SECTIONS = k + 1;
+                        }
+                        Err(_) => DEADLOCK = true,
+                    }
+                }
+                match m.try_lock() {
+                    Ok(g) => Ok(g),
+                    Err(std::sync::TryLockError::Poisoned(p)) => Err(p),
+                    Err(std::sync::TryLockError::WouldBlock) => {
+                        kani::assert(false, "OBS c15.shared: the wrapper locks its statistics while it already holds the lock (deadlock)");
+                        kani::assume(false);
+                        unreachable!()
+                    }
+                }
+            }
+
+            /// one read or write through a shared wrapper, other threads interfering at every
+            /// point where the lock is not held
+            #[allow(static_mut_refs)]
+            pub fn shared(read: bool, stat: bool) {
+                use crate::model::{Bits, BitsStream};
+                use dsi_bitstream::dispatch::{code_consts, ConstCode, DynamicCodeRead, DynamicCodeWrite, StaticCodeRead, StaticCodeWrite};
+                use dsi_bitstream::traits::BE;
+                use dsi_bitstream::utils::CodesStatsWrapper;
+                type S = BitsStream<BE>;
+                let n: u64 = kani::any();
+                kani::assume(n < 1 << 40);
+                let mut s = S::new(Bits::any(8), true, 16);
+                let start = s.bits.len;
+                if read {
+                    if s.write_gamma(n).is_err() {
+                        return;
+                    }
+                    s.pos = start;
+                }
+                let (r, fin) = if stat {
+                    let w = CodesStatsWrapper::<ConstCode<{ code_consts::GAMMA }>, $z, $g, $eg, $r, $p>::new(ConstCode::<{ code_consts::GAMMA }>);
+                    let r = if read {
+                        StaticCodeRead::<BE, S>::read(&w, &mut s)
+                    } else {
+                        match StaticCodeWrite::<BE, S>::write(&w, &mut s, n) {
+                            Ok(_) => Ok(n),
+                            Err(e) => Err(e),
+                        }
+                    };
+                    (r, w.into_inner().1)
+                } else {
+                    let w = CodesStatsWrapper::<Codes, $z, $g, $eg, $r, $p>::new(Codes::Gamma);
+                    let r = if read {
+                        DynamicCodeRead::read(&w, &mut s)
+                    } else {
+                        match DynamicCodeWrite::write(&w, &mut s, n) {
+                            Ok(_) => Ok(n),
+                            Err(e) => Err(e),
+                        }
+                    };
+                    (r, w.into_inner().1)
+                };
+                if r == Ok(n) {
+                    unsafe {
+                        kani::assert(!DEADLOCK, "OBS c15.shared: the statistics lock is free whenever the wrapper acquires it");
+                        kani::assert(SECTIONS >= 1 && SECTIONS <= MAXSEC, "INT c15.shared: between 1 and 3 critical sections per operation (observation window)");
+                        if SECTIONS >= 1 && SECTIONS <= MAXSEC {
+                            LEFT[SECTIONS - 1] = Some(fin);
+                            let mut updates = 0;
+                            let mut k = 0;
+                            while k < MAXSEC {
+                                if k < SECTIONS {
+                                    let a = ACQ[k].unwrap();
+                                    let l = LEFT[k].unwrap();
+                                    let mut u = a;
+                                    u.update(n);
+                                    let is_update = same(&l, &u);
+                                    kani::assert(
+                                        is_update || same(&l, &a),
+                                        "OBS c15.shared: a critical section leaves the statistics it found either unchanged or updated with exactly the value (no lost update under interference)",
+                                    );
+                                    if is_update {
+                                        updates += 1;
+                                    }
+                                }
+                                k += 1;
+                            }
+                            kani::assert(updates == 1, "OBS c15.shared: exactly one critical section applies update(value)");
+                        }
+                    }
+                }
+                kani::cover!(r == Ok(n), "c15.shared reachable");
+            }
+
             /// Default::default() is the empty observation
             pub fn default_() {
                 let s = St::default();
@@ -281,6 +420,21 @@ h!(small_update_many_big, 24, small_::update_many((1 << 33) + 12345));
 h!(small_merge, 24, small_::merge());
 h!(small_best, 24, small_::best());
 h!(small_default, 24, small_::default_());
+macro_rules! hs {
+    ($name:ident, $read:expr, $stat:expr) => {
+        #[kani::proof]
+        #[kani::unwind(24)]
+        #[kani::stub(std::sync::Mutex::lock, small_::lock_stub)]
+        #[kani::stub(alloc::fmt::format, crate::stubs::format_stub)]
+        pub fn $name() {
+            small_::shared($read, $stat)
+        }
+    };
+}
+hs!(small_shared_write, false, false);
+hs!(small_shared_read, true, false);
+hs!(small_shared_static_write, false, true);
+hs!(small_shared_static_read, true, true);
 h!(dflt_update, 70, dflt::update());
 h!(dflt_update_many_0, 70, dflt::update_many(0));
 h!(dflt_update_many_77, 70, dflt::update_many(77));
